@@ -9,6 +9,7 @@ import (
 	"io"
 	"net/http"
 	"net/http/httptest"
+	"strings"
 	"sync"
 	"testing"
 	"unicode/utf8"
@@ -17,6 +18,7 @@ import (
 	"google.golang.org/grpc/codes"
 	"google.golang.org/grpc/status"
 	"google.golang.org/protobuf/encoding/protojson"
+	"google.golang.org/protobuf/proto"
 	"pgregory.net/rapid"
 
 	"github.com/fullstorydev/grpchan"
@@ -35,6 +37,14 @@ type c08Case struct {
 	FirstEmpty bool   `json:",omitempty"` // req-count: the first request is the empty message (zero-length frame)
 	Method     string `json:",omitempty"` // req-count: which single-request method
 	Decorated  bool   `json:",omitempty"` // req-count: the service description went through grpchan.InterceptServer (pass-through interceptors) first
+	// RawBody (req-count): the requests are posted as one hand-framed body of known length (Content-Length, as a
+	// client that buffers its request does) instead of through the channel's pipe; LastEmpty: the last of them is the
+	// empty message (four zero bytes on the wire)
+	RawBody   bool `json:",omitempty"`
+	LastEmpty bool `json:",omitempty"`
+	// NilMsg (unary-nil, NilKind "status"): the handler returns no response and a status with this message
+	NilMsg  string `json:",omitempty"`
+	NilCode uint32 `json:",omitempty"`
 }
 
 func propC08(c c08Case) *Outcome {
@@ -129,6 +139,9 @@ func c08UnaryNil(c c08Case, o *Outcome) *Outcome {
 		if c.NilKind == "typed" {
 			return (*pb.Message)(nil), nil
 		}
+		if c.NilKind == "status" {
+			return nil, status.Error(codes.Code(c.NilCode), c.NilMsg)
+		}
 		return nil, nil
 	}}
 	copts := carrierOpts{}
@@ -177,6 +190,9 @@ func c08UnaryNil(c c08Case, o *Outcome) *Outcome {
 		return o.failf("stall: %s", stall)
 	}
 	o.Observed = observeErr(err)
+	if err == nil && c.NilKind == "status" {
+		return o.failf("%s (error renderer writes nothing: %v): unary handler returned no response and status %d %q; client reports success with %v", c.Carrier, c.Silent, c.NilCode, c.NilMsg, out)
+	}
 	if err == nil {
 		return o.failf("%s: unary handler returned a nil (%s) response and nil error; client reports success with %v", c.Carrier, c.NilKind, out)
 	}
@@ -222,6 +238,54 @@ func c08ReqCount(c c08Case, o *Outcome) *Outcome {
 	defer car.Close()
 	ctx, cancel := context.WithCancel(context.Background())
 	defer cancel()
+	if c.RawBody {
+		o.class("raw-body-with-content-length/last-empty=%v", c.LastEmpty)
+		var msgs []proto.Message
+		for i := 0; i < c.NReq; i++ {
+			m := &pb.Message{Count: int32(i + 1)}
+			if (i == 0 && c.FirstEmpty) || (i == c.NReq-1 && i > 0 && c.LastEmpty) {
+				m = &pb.Message{}
+			}
+			msgs = append(msgs, m)
+		}
+		body := encodeStream(msgs, nil)
+		var code int32 = -1
+		var httpStatus int
+		var rerr error
+		stall := guard("raw request", func() {
+			req, _ := http.NewRequest("POST", strings.TrimSuffix(car.BaseURL.String(), "/")+mServerStream, bytes.NewReader(body))
+			req.Header.Set("Content-Type", httpgrpc.StreamRpcContentType_V1)
+			resp, err := car.Transport.RoundTrip(req)
+			if err != nil {
+				rerr = err
+				return
+			}
+			defer resp.Body.Close()
+			httpStatus = resp.StatusCode
+			b, _ := io.ReadAll(resp.Body)
+			if d := refDecode(b); d.TrailerOK {
+				code = d.TrailerMsg.Code
+			}
+		})
+		if stall != "" {
+			return o.failf("stall: %s", stall)
+		}
+		mu.Lock()
+		defer mu.Unlock()
+		o.Observed = map[string]interface{}{"handler_recv_errs": fmt.Sprint(recvErrs), "http": httpStatus, "trailer_code": code, "err": errStr(rerr)}
+		if c.NReq >= 2 {
+			if len(recvErrs) > 0 && (recvErrs[0] == nil || recvErrs[0] == io.EOF) {
+				return o.failf("%s: %d request messages in one body of %d bytes (Content-Length) to a single-request method; handler RecvMsg returned %v instead of rejecting", c.Carrier, c.NReq, len(body), recvErrs[0])
+			}
+			if rerr == nil && httpStatus == 200 && code == 0 {
+				return o.failf("%s: %d request messages in one body (Content-Length) to a single-request method; the call ended OK", c.Carrier, c.NReq)
+			}
+		}
+		if c.NReq == 1 && (len(recvErrs) != 1 || recvErrs[0] != nil || code != 0) {
+			return o.failf("%s: one request message in a body with Content-Length: handler RecvMsg %v, trailer code %d, http %d, %v", c.Carrier, recvErrs, code, httpStatus, rerr)
+		}
+		return o
+	}
 	var final error
 	stall := guard("client", func() {
 		// the client misuses the method: it streams NReq requests to a single-request method
@@ -286,9 +350,16 @@ func genC08(t *rapid.T) c08Case {
 			c.Enc = "json"
 		}
 		c.Silent = isHTTP(c.Carrier) && rapid.Bool().Draw(t, "silent")
+		if c.Enc == "proto" && rapid.Bool().Draw(t, "nilstatus") {
+			// no response because the handler failed: whatever its message looks like, never success
+			c.NilKind = "status"
+			c.NilCode = rapid.Uint32Range(1, 16).Draw(t, "nilcode")
+			c.NilMsg = rapid.SampledFrom([]string{"failed", "lookup failed: connection refused", "a:b:c", "trail:", ":lead", "x: 5", "0:OK", "12", "0", ""}).Draw(t, "nilmsg")
+		}
 		return c
 	case 1:
-		return c08Case{Mode: "req-count", Carrier: rapid.SampledFrom([]string{cHTTP, cHTTPMux, cHTTPPer}).Draw(t, "carrier"), NReq: rapid.IntRange(0, 4).Draw(t, "nreq"), Method: "ServerStream", FirstEmpty: rapid.Bool().Draw(t, "firstempty"), Decorated: rapid.IntRange(0, 2).Draw(t, "decorated") == 0}
+		return c08Case{Mode: "req-count", Carrier: rapid.SampledFrom([]string{cHTTP, cHTTPMux, cHTTPPer}).Draw(t, "carrier"), NReq: rapid.IntRange(0, 4).Draw(t, "nreq"), Method: "ServerStream", FirstEmpty: rapid.Bool().Draw(t, "firstempty"), Decorated: rapid.IntRange(0, 2).Draw(t, "decorated") == 0,
+			RawBody: rapid.Bool().Draw(t, "rawbody"), LastEmpty: rapid.Bool().Draw(t, "lastempty")}
 	}
 	if rapid.IntRange(0, 9).Draw(t, "unaryboth") == 0 {
 		return c08Case{Mode: "unary-both", Carrier: rapid.SampledFrom(sutCarriers).Draw(t, "carrier"),
